@@ -115,7 +115,7 @@ def write_replay(prop, r, workdir):
     os.makedirs(d, exist_ok=True)
     path = os.path.join(d, re.sub(r'[^A-Za-z0-9_.-]', '_', g.gid) + '.json')
     first = r.failed[0]
-    nat = native_replay(g, first['inputs'], workdir) if first['inputs'] or g.kind == 'B' else \
+    nat = native_replay(g, first['inputs'], workdir) if (first['inputs'] or g.kind == 'B' or g.replay) else \
         {'cmd': None, 'reproduced': False, 'observation': 'the trace carries no named inputs'}
     doc = {
         'property': prop,
